@@ -110,4 +110,10 @@ var specs = map[string]propSpec{
 		Rule: "rapid generates a schema (nesting <= 3; dependent bodies keyed by labels, attribute values, defaults, references and a second level, boosted; any-attribute bodies; extensions; attribute/block name clashes; min/max items; computed-only attributes) and a file rendered from it with ~10% violations, into which blank lines and half-typed names are sprinkled; 40% of cases get a token-level edit. The harness classifies every character boundary on the parser AST (inside an attribute name, a block type, a label, on a blank line, at a half-typed name alone on its line) and computes the typed prefix from the text. Reference model on the serialisable schema: effective schema = static body overlaid with the dependent body selected by the harness's own key computation; expected candidates = attributes (not declared, not read-only) + count/for_each (extension on, not declared) + block types (below max items, attribute wins a clash) with the prefix, sorted, duplicate free; in a completable label the distinct dependent-body label values with the prefix; nothing in a non-completable label. Compared as ordered lists with CompletionAtPos. Acceptance: up to 6 candidates per case are applied (snippet expanded), the file re-parsed and ValidateFile must not report more unexpected/too-many diagnostics than before. evaluations = cursors compared. Non-trivial = at least two cursor classes exercised; distinct = SHA-1 of the case JSON.",
 		Assumptions: append([]string{"don't care: the `name` placeholder of any-attribute bodies; `dynamic` where the dynamic-blocks extension is in force; regions with undetermined dependent-body selection; lists above the limit (C06)"}, commonAssumptions...),
 	},
+	"C16": {
+		Test: "TestC16", Quick: 3000, Thorough: 30000, Shards: 16,
+		QuickTimeout: 10 * time.Minute, ThoroughTimeout: 40 * time.Minute,
+		Rule: "rapid constructs (a) two dependency key sets (0-3 label keys, 0-4 attribute keys with string / number / bool values or traversal addresses) and a permutation: NewSchemaKey of the permuted listing must equal the original's, and two sets share a key exactly when they are the same set by the harness's own canonical form; (b) a block type with 0-2 key labels, 0-3 key attributes (some with defaults) and 1-4 dependent bodies registered under distinct key sets listed in permuted order, each with a marker attribute (own description, token modifier, address, reference value) and optionally a docs link, plus one block instance written to select one of them (key attributes in permuted order, literals / traversals / defaults) or none. The dependent body in force is computed by the harness's reference model and cross-checked against the construction; then every feature must see exactly that body: hover and semantic token (with modifier) on the marker, validation (markers of other bodies unexpected; nothing unexpected when the lookup fails), collected target and origin of the marker, no completion of declared markers, and LinksInFile exactly on the labels / written attribute values that formed the key of a body having a link. evaluations = feature comparisons. Non-trivial = a body selected through >= 2 keys or a key set of size >= 2; distinct = SHA-1 of the case JSON.",
+		Assumptions: append([]string{"second-level (two-step) selection is exercised by C07/C12/C13/C15 through the general generator, not by this constructed scenario"}, commonAssumptions...),
+	},
 }
